@@ -135,4 +135,29 @@ template <class W> void wd_seq_use() { typename W::Top m; m.start(); m.process_e
 template void wd_seq_use<wd_seq_defer<boost::msm::back::state_machine>>();
 template void wd_seq_use<wd_seq_defer<boost::msm::back11::state_machine>>();
 template void wd_seq_use<wd_seq_defer<boost::msm::backmp11::state_machine_adapter>>();
+// two orthogonal regions whose active states BOTH defer the same event (no row on it in either of them)
+struct wd_twice {};
+template <template <typename...> class Back>
+struct wd_both_defer
+{
+    struct Top_ : public msm::front::state_machine_def<Top_>
+    {
+        struct A1 : wd_st { typedef mpl::vector<wd_twice> deferred_events; };
+        struct A2 : wd_st {};
+        struct B1 : wd_st { typedef mpl::vector<wd_twice> deferred_events; };
+        struct B2 : wd_st {};
+        typedef mpl::vector<A1, B1> initial_state;
+        struct transition_table : mpl::vector<
+            msm::front::Row<A1, wd_go, A2, msm::front::none, msm::front::none>,
+            msm::front::Row<A2, wd_twice, msm::front::none, wd_act, msm::front::none>,
+            msm::front::Row<B1, wd_go, B2, msm::front::none, msm::front::none>
+        > {};
+        template <class FSM, class Event> void no_transition(Event const&, FSM&, int) {}
+    };
+    typedef Back<Top_> Top;
+};
+template <class W> void wd_both_use() { typename W::Top m; m.start(); m.process_event(wd_twice()); m.process_event(wd_go()); m.stop(); }
+template void wd_both_use<wd_both_defer<boost::msm::back::state_machine>>();
+template void wd_both_use<wd_both_defer<boost::msm::back11::state_machine>>();
+template void wd_both_use<wd_both_defer<boost::msm::backmp11::state_machine_adapter>>();
 }
